@@ -322,7 +322,12 @@ func (f *Frame) builtin(st *State, site ssa.CallInstruction, b *ssa.Builtin, com
 		f.nilCheck(st, in, args[0].T)
 		return args[0]
 	case "clear":
-		panic(unsupported("clear builtin"))
+		a := args[0]
+		if a.K != KSlice {
+			panic(unsupported("clear of a map"))
+		}
+		f.zeroRange(st, a.Base, a.Off, a.Len, elemOf(a.Ty))
+		return nil
 	}
 	panic(unsupported("builtin %s", b.Name()))
 }
@@ -438,7 +443,7 @@ func (f *Frame) copyRange(st *State, dBase, dOff, sBase, sOff, n Term, et types.
 		c.assumes = append(c.assumes, Assume{declPos: len(c.decls), heapAx: true, why: "copy of a symbolic range",
 			t: raw(fmt.Sprintf("(forall ((i %s)) (! (= (select %s i) (ite %s %s (select (select %s %s) i))) :pattern ((select %s i))))",
 				c.idxSort, na.S, inWin.S, src.S, e.S, dBase.S, na.S), SBool)})
-		c.copyRecs[na.S] = copyRec{e, dBase, dOff, n, sBase, sOff}
+		c.copyRecs[na.S] = copyRec{e: e, dBase: dBase, dOff: dOff, n: n, sBase: sBase, sOff: sOff}
 		c.memSet(st, en, Store(e, dBase, na))
 	}
 }
@@ -546,4 +551,32 @@ func instrCount(fn *ssa.Function) int {
 		n += len(b.Instrs)
 	}
 	return n
+}
+
+// zeroRange sets dst[dOff .. dOff+n) to the zero value (clear builtin).
+func (f *Frame) zeroRange(st *State, dBase, dOff, n Term, et types.Type) {
+	c := f.c
+	if n.C != nil && n.C.IsInt64() && n.C.Int64() <= 64 {
+		for i := int64(0); i < n.C.Int64(); i++ {
+			c.store(st, RefElem(dBase, c.idxAdd(dOff, c.idxLit(i))), et, c.zero(et))
+		}
+		return
+	}
+	if isAggregate(et) {
+		panic(unsupported("clear of a slice of aggregates with symbolic length"))
+	}
+	for _, lm := range c.elemMems(et) {
+		en := "E" + lm.name[1:]
+		e := c.elemGet(st, en, lm.sort)
+		inner := SArr(c.idxSort, lm.sort)
+		na := c.Fresh("clr."+en, inner)
+		z, _ := c.zeroOfSort(lm.sort)
+		i := raw("i", c.idxSort)
+		inWin := And(c.idxLe(dOff, i), c.idxLt(i, c.idxAdd(dOff, n)))
+		c.assumes = append(c.assumes, Assume{declPos: len(c.decls), heapAx: true, why: "clear of a symbolic range",
+			t: raw(fmt.Sprintf("(forall ((i %s)) (! (= (select %s i) (ite %s %s (select (select %s %s) i))) :pattern ((select %s i))))",
+				c.idxSort, na.S, inWin.S, z.S, e.S, dBase.S, na.S), SBool)})
+		c.copyRecs[na.S] = copyRec{e: e, dBase: dBase, dOff: dOff, n: n, zero: true, zeroVal: z}
+		c.memSet(st, en, Store(e, dBase, na))
+	}
 }
